@@ -228,6 +228,24 @@ func runHistory(t *testing.T, r *ev.Run, seed int64, p Params) (failed bool) {
 			c.CacheIK, c.CacheSK = false, false
 			h.p.SameCfg = &c
 		}
+		if p.LatencyPct > 0 {
+			// now and then an external call takes (virtual) time: a precision unit, a revoke interval, a nanosecond
+			lrng := rand.New(rand.NewSource(seed ^ 0x5eed))
+			lat := func(string) time.Duration {
+				if lrng.Intn(1000) >= p.LatencyPct {
+					return 0
+				}
+				h.r.Count("latencies_injected", 1)
+				if p.Oracles&(OC04|OC05) != 0 {
+					// time-bound oracles: only jitter (covered by the oracle's slack); a call that takes longer than
+					// the revoke-check interval legitimately stretches the staleness bound by its own duration
+					return []time.Duration{time.Nanosecond, 100 * time.Nanosecond, time.Microsecond}[lrng.Intn(3)]
+				}
+				return []time.Duration{time.Nanosecond, time.Second, h.precision / 2, h.precision + time.Second, h.revoke + time.Nanosecond}[lrng.Intn(5)]
+			}
+			h.w.MS.Latency, h.w.KMS.Latency, h.w.AEAD.Latency = lat, lat, lat
+			h.slack = 50 * time.Microsecond
+		}
 		h.logf("world secret=%s suffix=%q E=%s R=%s P=%s", impl, h.w.Suffix, h.expire, h.revoke, h.precision)
 		h.facts = append(h.facts, h.newFact())
 		defer func() {
